@@ -36,33 +36,34 @@ Print Assumptions C16_dual_ops_are_derivatives.
 
 (* ---- first-order variational force (testparticle<0; positions AND masses varied) = dual part of C02's
    grav_basic (the model of reb_calculate_acceleration) run at dual numbers, for every N, every N_active <= N,
-   testparticle_type, gravity_ignore_terms, all pairs at distinct positions, zero softening, open boundary.
+   testparticle_type, gravity_ignore_terms, any softening (the variational loops use the softened distance since /repo
+   73bd0c3), softened separation of all visited pairs non-zero, open boundary.
    Full strength since /repo commit 09c4229 (the second variational loop nest starts at MAX(N_active, starti)). *)
 Theorem C16_var1_is_dual_part :
-  forall (G bx by_ bz : R) (ign nact : nat) (tp : bool) (pds : list (Part R * Part R)),
-  distinct (map fst pds) -> (nact <= length pds)%nat ->
-  map dp3 (grav_basic DR (dconst RNum G) (dconst RNum 0) (dconst RNum bx) (dconst RNum by_) (dconst RNum bz)
+  forall (G soft bx by_ bz : R) (ign nact : nat) (tp : bool) (pds : list (Part R * Part R)),
+  distinct soft (map fst pds) -> (nact <= length pds)%nat ->
+  map dp3 (grav_basic DR (dconst RNum G) (dconst RNum soft) (dconst RNum bx) (dconst RNum by_) (dconst RNum bz)
              0 0 0 ign nact tp (dlifts pds))
-  = grav_var1 RNum G ign nact tp (map fst pds) (map snd pds).
+  = grav_var1 RNum (soft * soft) G ign nact tp (map fst pds) (map snd pds).
 Proof. exact var1_is_dual_part. Qed.
 Print Assumptions C16_var1_is_dual_part.
 
 (* ---- test-particle variation = derivative of the acceleration of particle i w.r.t. its own position *)
 Theorem C16_var1_testparticle_is_dual_part :
-  forall (G : R) (ign : nat) (ps : list (Part R)) (dvx dvy dvz : R) (i : nat),
-  (forall j, (j < length ps)%nat -> j <> i -> sep2 (nth_d (Z0P RNum) ps i) (nth_d (Z0P RNum) ps j) <> 0) ->
+  forall (G soft : R) (ign : nat) (ps : list (Part R)) (dvx dvy dvz : R) (i : nat),
+  (forall j, (j < length ps)%nat -> j <> i -> sep2 soft (nth_d (Z0P RNum) ps i) (nth_d (Z0P RNum) ps j) <> 0) ->
   let pi := nth_d (Z0P RNum) ps i in
-  dp3 (acc_on DR (dconst RNum G) ign (clifts ps) ((px pi, dvx), (py pi, dvy), (pz pi, dvz)) i)
-  = grav_var1_tp RNum G ign ps (dvx, dvy, dvz) i.
+  dp3 (acc_on DR (softD soft) (dconst RNum G) ign (clifts ps) ((px pi, dvx), (py pi, dvy), (pz pi, dvz)) i)
+  = grav_var1_tp RNum (soft * soft) G ign ps (dvx, dvy, dvz) i.
 Proof. exact var1_testparticle_is_dual_part. Qed.
 Print Assumptions C16_var1_testparticle_is_dual_part.
 
 (* ---- second-order variational force = coefficient of e1*e2 of the Newtonian pair loop at nested duals,
    particle = p + a e1 + b e2 + w e1e2 (a,b = index_1st_order_a/b sets, w = second-order set), every N *)
-Theorem C16_var2_is_mixed_dual_part : forall (G : R) (qs : list Q4),
-  distinct (map q_p qs) ->
-  map mix3 (grav_allpairs DDR (GDD G) (ddlifts qs))
-  = grav_var2 RNum G (map q_p qs) (map q_w qs) (map q_a qs) (map q_b qs).
+Theorem C16_var2_is_mixed_dual_part : forall (G soft : R) (qs : list Q4),
+  distinct soft (map q_p qs) ->
+  map mix3 (grav_allpairs DDR (softDD soft) (GDD G) (ddlifts qs))
+  = grav_var2 RNum (soft * soft) G (map q_p qs) (map q_w qs) (map q_a qs) (map q_b qs).
 Proof. exact var2_is_mixed_dual_part. Qed.
 Print Assumptions C16_var2_is_mixed_dual_part.
 
@@ -181,29 +182,29 @@ Print Assumptions C16_pal_implicit2.
 
 (* ---- second-order test-particle loop *)
 Theorem C16_var2_testparticle_is_mixed_dual_part :
-  forall (G : R) (ps : list (Part R)) (ax ay az bx by_ bz wx wy wz : R) (i : nat),
-  (forall j, (j < length ps)%nat -> j <> i -> sep2 (nth_d (Z0P RNum) ps i) (nth_d (Z0P RNum) ps j) <> 0) ->
+  forall (G soft : R) (ps : list (Part R)) (ax ay az bx by_ bz wx wy wz : R) (i : nat),
+  (forall j, (j < length ps)%nat -> j <> i -> sep2 soft (nth_d (Z0P RNum) ps i) (nth_d (Z0P RNum) ps j) <> 0) ->
   let pi := nth_d (Z0P RNum) ps i in
-  mix3 (acc_on DDR (GDD G) 0 (cclifts ps) (dd (px pi) ax bx wx, dd (py pi) ay by_ wy, dd (pz pi) az bz wz) i)
-  = grav_var2_tp RNum G ps (wx, wy, wz) (ax, ay, az) (bx, by_, bz) i.
+  mix3 (acc_on DDR (softDD soft) (GDD G) 0 (cclifts ps) (dd (px pi) ax bx wx, dd (py pi) ay by_ wy, dd (pz pi) az bz wz) i)
+  = grav_var2_tp RNum (soft * soft) G ps (wx, wy, wz) (ax, ay, az) (bx, by_, bz) i.
 Proof. exact var2_testparticle_is_mixed_dual_part. Qed.
 Print Assumptions C16_var2_testparticle_is_mixed_dual_part.
 
 (* ---- the program differentiated by the test-particle theorems is C02's specified force on particle i *)
-Theorem C16_acc_on_is_c02_spec : forall (G : R) (ign : nat) (tp : bool) (ps : list (Part R)) (i : nat),
+Theorem C16_acc_on_is_c02_spec : forall (G eps : R) (ign : nat) (tp : bool) (ps : list (Part R)) (i : nat),
   (ign <= 2)%nat ->
   let pi := nth_d (Z0P RNum) ps i in
-  acc_on RNum G ign ps (px pi, py pi, pz pi) i = acc_spec G 0 0 0 0 0%nat 0%nat 0%nat ign (length ps) tp ps i.
+  acc_on RNum (eps * eps) G ign ps (px pi, py pi, pz pi) i = acc_spec G eps 0 0 0 0%nat 0%nat 0%nat ign (length ps) tp ps i.
 Proof. exact acc_on_is_spec. Qed.
 Print Assumptions C16_acc_on_is_c02_spec.
 
 (* ---- the program differentiated by C16_var2_is_mixed_dual_part is the specified force / C02's model of
-   reb_calculate_acceleration (zero softening, open boundary, all particles active, gravity_ignore_terms = 0) *)
-Theorem C16_grav_allpairs_is_c02_grav_basic : forall (G : R) (tp : bool) (ps : list (Part R)) (k : nat),
+   reb_calculate_acceleration (zero softening, open boundary, all particles active, gravity_ignore_terms = 0; any softening) *)
+Theorem C16_grav_allpairs_is_c02_grav_basic : forall (G eps : R) (tp : bool) (ps : list (Part R)) (k : nat),
   (k < length ps)%nat ->
-  nth_d C02.Sums.vzero (grav_allpairs RNum G ps) k = acc_spec G 0 0 0 0 0%nat 0%nat 0%nat 0%nat (length ps) tp ps k /\
-  nth_d C02.Sums.vzero (grav_allpairs RNum G ps) k =
-  nth_d C02.Sums.vzero (grav_basic RNum G 0 0 0 0 0 0 0 0 (length ps) tp ps) k.
+  nth_d C02.Sums.vzero (grav_allpairs RNum (eps * eps) G ps) k = acc_spec G eps 0 0 0 0%nat 0%nat 0%nat 0%nat (length ps) tp ps k /\
+  nth_d C02.Sums.vzero (grav_allpairs RNum (eps * eps) G ps) k =
+  nth_d C02.Sums.vzero (grav_basic RNum G eps 0 0 0 0 0 0 0 (length ps) tp ps) k.
 Proof. intros. split; [apply grav_allpairs_is_spec | apply grav_allpairs_is_grav_basic]; assumption. Qed.
 Print Assumptions C16_grav_allpairs_is_c02_grav_basic.
 
@@ -297,7 +298,7 @@ Qed.
 Print Assumptions C16_stiefel_chain_rule_closed_form.
 
 (* ---- rescaling changes only the recorded magnitude (reb_simulation_rescale_var, branch for branch, incl. the IAS15
-   branch of /repo 8a5d079): every set is untouched or all its coordinates are divided by ONE factor s > big whose ln is
+   branch of /repo 8a5d079): every set is untouched or all its masses and coordinates (m, x..vz; the mass since /repo 32cf4f3) are divided by ONE factor s > big whose ln is
    added to lrescale; exp(lrescale) * particles is unchanged, and when IAS15 holds state for the set
    (integrator = IAS15, arrays allocated) so is exp(lrescale) * (csx, csv, b, csb, e, br, er of that set) *)
 Theorem C16_rescale_only_magnitude : forall big : R, 0 < big -> forall (cs : list VCfg) (fl : Flags),
@@ -357,7 +358,7 @@ Print Assumptions C16_move_to_com_set_is_com_variation.
 
 (* Non-vacuity: a star and two planets at distinct positions; a bound orbit meeting the constructor hypotheses *)
 Example C16_hypotheses_inhabited :
-  distinct [mkP 1 0 0 0; mkP (1/1000) 1 0 0; mkP 0 0 2 (1/2)] /\
+  distinct 0 [mkP 1 0 0 0; mkP (1/1000) 1 0 0; mkP 0 0 2 (1/2)] /\
   (let '(G, m, Mp, a, e, cf) := (1, 1/1000, 1, 2, 1/10, -1) in
    a <> 0 /\ 1 + e * cf <> 0 /\ 0 < 1 - e * e /\ m + Mp <> 0 /\ 0 < G * (m + Mp) / a /\ 0 < G * (m + Mp) / a / (1 - e * e)) /\
   (let '(h, k, q, ix, iy) := (1/10, 1/5, 1/10, 1/2, 1/3) in
